@@ -1,5 +1,6 @@
 import Enc.Model.Thrift
 import Enc.Lemmas.Base
+import Enc.Lemmas.ThriftSkip
 /-!
 # C08 — thrift decoding is total, bounded and skips unknown fields
 Property theorems only.
@@ -37,5 +38,30 @@ theorem rLength_bounded (p : Proto) (b r : Bytes) (n : Nat) (h : rLength p b = .
   all_goals
     cases hx : (rFixed b 4) <;> cases hy : (readUvarintGo b) <;> simp_all [Res.bind] <;>
     (try (split at h <;> simp_all <;> omega))
+
+/-- **Unknown fields of any thrift type and nesting are skipped.** For both protocols, every supported type `ty` and
+every well-formed value `v` (explicit decidable predicate `Lemmas.ThriftSkip.WF`: value shape matches the type, integers in
+range, sizes ≤ MaxInt32, struct field ids distinct and in 1..32767, no enum tag on a non-int32 kind), the generic skipper
+run on the wire type of `ty` consumes exactly the encoding of `v` and nothing else, whatever follows — including nested
+structs with delta-encoded ids, compact bool fields that live in the header, lists, sets and maps. -/
+theorem skip_consumes_exactly (p : Proto) (ty : Ty) (v : Val) (h : Lemmas.ThriftSkip.WF ty v = true)
+    (fuel : Nat) (rest : Bytes) (hf : Lemmas.ThriftSkip.fuelOf ty v ≤ fuel) :
+    skip p fuel (typeOf ty) (encode p ty v ++ rest) = .ok ((), rest) :=
+  Lemmas.ThriftSkip.skip_encode p ty v h fuel rest hf
+
+/-- … and the struct decoder resumes right after an undeclared field with the target's field values and the set of seen
+ids unchanged ("skipped without affecting the decoded value") -/
+theorem undeclared_field_has_no_effect (p : Proto) (strict : Bool) (B : Nat) (f : FieldRec) (r : List FieldRec)
+    (hg : Lemmas.ThriftSkip.GoodRec p B f) (last : Int) (hl : 0 ≤ last) (hlt : last < f.id)
+    (descs : List FieldDesc) (hnone : findById descs f.id = none) (fuel : Nat) (hf : B ≤ fuel)
+    (vs : Vals) (num : Nat) (seen : List Int) (rest : Bytes) :
+    decodeStruct p strict (fuel + 1) descs (emitFields p (f :: r) last ++ rest) vs last num seen
+      = decodeStruct p strict fuel descs (emitFields p r f.id ++ rest) vs f.id (num + 1) seen :=
+  Lemmas.ThriftSkip.decodeStruct_undeclared p strict B f r hg last hl hlt descs hnone fuel hf vs num seen rest
+
+/-- non-vacuity: the well-formedness predicate is satisfiable (a list of in-range i32 values; the agent's `#eval` checks a
+struct with bool, list-of-struct, enum, map-of-pointers and set in both protocols) -/
+example : Lemmas.ThriftSkip.WF (.slice (.int .i32)) (.list (.cons (.int 5) (.cons (.int (-7)) .nil))) = true := by
+  decide +kernel
 
 end Enc.Props.C08
